@@ -24,3 +24,49 @@ Theorem C01_validated_tape_correct_f32 :
       m_out (eval_tape (f32_sem o) ssa inputs e0 out0) = m_out (eval_tape (f32_sem o) reg inputs e0' out0).
 Proof. intros o inputs ssa reg H e0 e0' out0. exact (proj1 (check_alloc_sound f32_eqb f32_eqb_eq (f32_sem o) inputs ssa reg H e0 e0' out0)). Qed.
 Print Assumptions C01_validated_tape_correct_f32.
+
+(* ---- Stage B: the for-all theorems (no per-program check involved) ----------------- *)
+From Coq Require Import List Arith.
+From FV Require Import Lru Alloc SsaWf LruProof AllocProof.
+Import ListNotations.
+
+(* Every well-formed SSA tape, every register budget 3..255: allocation succeeds and the
+   register tape writes the SSA tape's outputs and records its trace, for every value
+   type, opcode semantics, input and stale slot contents (spills included). *)
+Theorem C01_alloc_correct :
+  forall (V I : Type) (sem : Sem V I) (n : nat) (ssa : list (op I)),
+    3 <= n -> n <= 255 -> ssa_wf ssa = true ->
+    exists rt slots,
+      reg_tape_new n ssa = Ok (rt, slots) /\
+      forall (inputs : list V) (e0 e0' : env) (out0 : list V),
+        m_out (eval_tape sem ssa inputs e0 out0) = m_out (eval_tape sem rt inputs e0' out0) /\
+        m_trace (eval_tape sem ssa inputs e0 out0) = m_trace (eval_tape sem rt inputs e0' out0).
+Proof. exact alloc_correct. Qed.
+Print Assumptions C01_alloc_correct.
+
+(* Budgets below 3 fail loudly or are right, never wrong. *)
+Theorem C01_alloc_small_budget :
+  forall (V I : Type) (sem : Sem V I) (n : nat) (ssa rt : list (op I)) (slots : nat),
+    1 <= n -> ssa_wf ssa = true -> reg_tape_new n ssa = Ok (rt, slots) ->
+    forall (inputs : list V) (e0 e0' : env) (out0 : list V),
+      m_out (eval_tape sem ssa inputs e0 out0) = m_out (eval_tape sem rt inputs e0' out0) /\
+      m_trace (eval_tape sem ssa inputs e0 out0) = m_trace (eval_tape sem rt inputs e0' out0).
+Proof. exact alloc_small_budget. Qed.
+Print Assumptions C01_alloc_small_budget.
+
+(* No slot index outside [0, slot_count): registers < N, memory in [N, slot_count). *)
+Theorem C01_alloc_bounds :
+  forall (I : Type) (n : nat) (ssa rt : list (op I)) (slots : nat),
+    1 <= n -> ssa_wf ssa = true -> reg_tape_new n ssa = Ok (rt, slots) -> tape_bounds n slots rt.
+Proof. exact alloc_bounds. Qed.
+Print Assumptions C01_alloc_bounds.
+
+(* The array-backed LRU refines an abstract recency list under any poke/pop sequence. *)
+Theorem C01_lru_refines :
+  forall (n : nat) (cs : list lru_cmd),
+    1 <= n -> (forall i, In (CPoke i) cs -> i < n) ->
+    lru_rep n (fst (lru_run (lru_new n) cs)) (fst (abs_run (seq 0 n) cs)) /\
+    snd (lru_run (lru_new n) cs) = snd (abs_run (seq 0 n) cs) /\
+    Permutation.Permutation (fst (abs_run (seq 0 n) cs)) (seq 0 n).
+Proof. exact lru_refines. Qed.
+Print Assumptions C01_lru_refines.
